@@ -759,7 +759,8 @@ LEVEL_TEXT = ('Exploration by runtime monitoring: icontract postconditions attac
               'value per layer, finite, positive, inside the range of the declared control temperatures, constant for equal '
               'controls, Guillot equal to an independently coded closed form -- against constructor arguments and grids recorded '
               'by taps; the workloads present every documented non-physical set (also through the fitting-parameter setters) and '
-              'require an InvalidModelException. Held means held on the recorded executions.')
+              'require an InvalidModelException. Held means held on the recorded executions.'
+              ' Results the caller keeps and work arrays it re-uses are followed by an ownership ledger (vmon/own.py).')
 LEVEL_NOTE = ('Trusted: scipy.special.exp1 for E2; the Guillot 2010 / Line 2012 formula as quoted in the class documentation; '
               'IAU-2015 nominal Jupiter constants for the surface gravity (agree with the repository to 1e-12).')
 TECHNIQUE = 'icontract postconditions on every TemperatureProfile.profile + constructor/initialize taps + closed-form reference, over seeded workloads'
